@@ -24,6 +24,7 @@ TRUSTED = [
     "task.add_done_callback(cb): cb runs atomically once after the task ended, for every way it can end (return, exception, cancellation)",
     "anyio task group: the `async with` block exits when both children have returned",
     "broker.listen() yields each taken message once and raises nothing but StopAsyncIteration (stream end: explored); CancelledError (external cancellation of listen()) is raised by no contract: that handler edge is not explored",
+    "the handler task never ends cancelled: nothing cancels it (it is only awaited at shutdown) and run_task turns every BaseException of the task function, CancelledError included, into an error result (obligation 'run_task/raises' of unit u_run_task) - so Task.exception()/cancelled() in the done-callback do not raise",
     "callback()/run_task() never touch self.sem, self.sem_prefetch or the queue (frame obligations of units u_callback/u_run_task)",
 ]
 SENT = -1
@@ -182,11 +183,21 @@ def generate(src):
         return k(st, Tok(lambda s, k2, K2: ex.suspend(s, 'asyncio.wait', guard, lambda x: None, lambda x: k2(x, PyTuple([fresh('done_set'), fresh('pending_set')])))))
     def h_result(ex, st, e, recv, args, kw, k, K):
         g = G(st)
+        if ex.thread == 'E':          # inside the done-callback, on the finished handler task: Task.result() re-raises whatever the handler raised (hooks/ack/backend are user code)
+            if recv != 'HANDLE_CB': raise Unsupported("result() of " + ast.unparse(e.func.value) + " in the done-callback")
+            ok = st.fork(); k(ok, None)
+            f = st.fork(); return K['exc'](f, raise_any(f, 'BaseException'))
         oblige(st, "prefetcher/pre@current_message.result(): the look-ahead task is done  [C01]", Or(g['la'] == 2, g['la'] == 3), props=['C01'], witness=wit(g), replay=RP)
         ok = st.fork(); ok.pc.append(g['la'] == 2)
         if ex.feasible(ok): setG(ok, la=IntVal(0)); k(ok, PyInt(g['la_msg']))
         end = st.fork(); end.pc.append(g['la'] == 3)          # the broker's listen() stream ended: Task.result() re-raises StopAsyncIteration
         if ex.feasible(end): K['exc'](end, new_exc(end, 'StopAsyncIteration'))
+    def h_exception(ex, st, e, recv, args, kw, k, K):          # Task.exception() of the finished handler task: None or the exception it raised; raises only for a cancelled task (assumed away, see TRUSTED)
+        if ex.thread != 'E' or recv != 'HANDLE_CB': raise Unsupported("exception() of " + ast.unparse(e.func.value))
+        return k(st, fresh('handler_exception'))
+    def h_cancelled(ex, st, e, recv, args, kw, k, K):
+        if ex.thread != 'E' or recv != 'HANDLE_CB': raise Unsupported("cancelled() of " + ast.unparse(e.func.value))
+        return k(st, PyBool(BoolVal(False)))
     def h_cancel(ex, st, e, recv, args, kw, k, K): g = G(st); setG(st, la=If(g['la'] == 1, 0, g['la'])); return k(st, None)
     def h_put(ex, st, e, recv, args, kw, k, K):
         v = args[0]
@@ -198,6 +209,9 @@ def generate(src):
             if not is_sentinel: setG(s, hist=Store(g['hist'], g['tail'], v.e), tail=g['tail'] + 1, enq=g['enq'] + 1)
             else: setG(s, hist=Store(g['hist'], g['tail'], IntVal(SENT)), tail=g['tail'] + 1, qdone=BoolVal(True))
             return k2(s, None)
+        if e.func.attr == 'put_nowait':          # same effect, immediately; on the unbounded queue (obligation on listen()) it cannot raise QueueFull
+            out = []; eff(st, lambda s, v: out.append(s), K)
+            return k(out[0], None)
         return k(st, Tok(eff))
     def h_get(ex, st, e, recv, args, kw, k, K):
         def eff(s): g = G(s); s.env = dict(s.env); s.env['__got'] = g['hist'][g['head']]; setG(s, head=g['head'] + 1)
@@ -264,7 +278,7 @@ def generate(src):
             return super().st_AugAssign(s, st, done, K)
     H = {'logger.*': noop, 'self.broker.listen': h_listen, '*.__anext__': h_anext, 'asyncio.create_task': h_create_task, 'self.callback': h_callback, '*.is_set': h_is_set,
          'self.sem_prefetch.acquire': h_sp_acquire, 'self.sem_prefetch.release': h_sp_release, 'self.sem.acquire': h_sa_acquire, 'self.sem.release': h_sa_release, 'asyncio.wait': h_wait,
-         '*.result': h_result, '*.cancel': h_cancel, 'queue.put': h_put, 'queue.get': h_get, '*.add': noop, '*.add_done_callback': h_add_done_callback,
+         '*.result': h_result, '*.exception': h_exception, '*.cancelled': h_cancelled, '*.cancel': h_cancel, 'queue.put': h_put, 'queue.put_nowait': h_put, 'queue.get': h_get, '*.add': noop, '*.add_done_callback': h_add_done_callback,
          '*.discard': noop, 'len': noop, 'set': h_set}
 
     # ---------------- Receiver.__init__: the semaphores are built from the configured limits  [C03/C04]
@@ -371,7 +385,8 @@ def generate(src):
                     exw.block(fd.body, stw, lambda s: ends.append(s), {'ret': lambda s, v: ends.append(s), 'exc': lambda s, x: ends.append(s)})
                 for st_end in ends:
                     st_end.env = {'self': PyObj(Int('self_a')), 'task': 'HANDLE_CB'}
-                    ex.block(TASK_CB.body, st_end, lambda s: res.append(s), {'ret': lambda s, v: res.append(s)})
+                    ex.block(TASK_CB.body, st_end, lambda s: res.append(s), {'ret': lambda s, v: res.append(s),
+                             'exc': lambda s, x: oblige(s, "task_cb/raises: the done-callback never raises (an exception there skips the release of the execution slot)  [C03]", BoolVal(False), props=['C03'], witness=wit(pre), replay=RP)})
                 for s in res:
                     g = dict(s.ghost); g['done_cb'] = g['done_cb'] + 1
                     oblige(s, "task_cb/post: releases exactly one execution slot iff a limit is set  [C03]", g['cb_released'] == If(hasA, 1, 0), props=['C03'], witness=wit(pre), replay=RP)
